@@ -14,6 +14,11 @@ pub type Content = (u8, Vec<u8>, Vec<u8>);
 /// Evaluate one ordered pair (raw contents) through all entry points; every
 /// one must return the oracle's score.  Returns the score.
 pub fn score_all_routes(a: &Content, b: &Content) -> Result<u32, String> {
+    // a panic escaping from the library through any call below is a violation of this case, not a crash
+    guard_case(|| score_all_routes_unguarded(a, b))
+}
+
+fn score_all_routes_unguarded(a: &Content, b: &Content) -> Result<u32, String> {
     let exp = refmodel::score(a.0, &a.1, &a.2, b.0, &b.1, &b.2);
     let fits_short = |c: &Content| refmodel::normalize(&c.2).len() <= 32 && c.2.len() <= 32;
     let mut routes: Vec<(&'static str, u32)> = vec![];
